@@ -38,6 +38,15 @@ func emit(s string) {
 }
 
 func main() {
+	// A proxy configured in the ENVIRONMENT of the process must never matter: the proxy's upstreams and listeners are
+	// defined by its configuration alone.  The variables point at a port nobody listens on, so anything that honours
+	// them (http.ProxyFromEnvironment) fails or shows up as a stray connection.  (Loopback hosts are never proxied by
+	// net/http: the harness' own clients are unaffected.)
+	for _, k := range []string{"HTTP_PROXY", "HTTPS_PROXY", "http_proxy", "https_proxy"} {
+		os.Setenv(k, "http://127.0.0.1:9")
+	}
+	os.Unsetenv("NO_PROXY")
+	os.Unsetenv("no_proxy")
 	if len(os.Args) < 2 {
 		fmt.Fprintln(os.Stderr, "usage: implrun <kind>")
 		os.Exit(2)
